@@ -89,7 +89,8 @@ def process_loop(k, conns, obj, make_key):
                 pid = os.fork()
                 if pid == 0:
                     k = j
-                    iterator = None
+                    if not (len(msg) > 2 and msg[2]):
+                        iterator = None  # (otherwise the child continues the iteration its parent had started)
                     Pauser.conn = conns[k][1]
                     conn = conns[k][1]
                     conn.send(("hello", os.getpid()))
@@ -161,7 +162,7 @@ class ForkTree:
 
     def fork(self, parent):
         j = self.nprocs
-        self.send(parent, "fork", j)
+        self.send(parent, "fork", j, bool(getattr(self, "keep_iter", False)))
         a = self.recv(parent)
         b = self.recv(j)
         assert a[0] == "forked" and b[0] == "hello", (a, b)
